@@ -2,6 +2,7 @@ package main
 
 import (
 	"fmt"
+	"go/token"
 	"go/types"
 
 	"golang.org/x/tools/go/ssa"
@@ -265,6 +266,58 @@ func runC15(c *Ctx) {
 		})
 	}
 	c.Min("V4-injected-table-writers", 3)
+	// V6: what is read out of a rule's locals table never goes into the data context itself:
+	// the context is shared by every rule of the call, by later calls and by concurrent
+	// executions, the table belongs to one execution. A value looked up in the table and
+	// stored into a field (or the injected table) of the DataContext outlives that execution.
+	nV6 := 0
+	for _, f := range c.Methods("context", "DataContext") {
+		x := c.Index(f)
+		var varsPar *ssa.Parameter
+		for _, p := range f.Params {
+			if mt, ok := p.Type().Underlying().(*types.Map); ok {
+				if nt, isN := mt.Elem().(*types.Named); isN && nt.Obj().Name() == "Value" && nt.Obj().Pkg() != nil && nt.Obj().Pkg().Path() == "reflect" {
+					varsPar = p
+				}
+			}
+		}
+		if varsPar == nil {
+			continue
+		}
+		nV6++
+		fromVars := func(v ssa.Value) bool {
+			for _, pv := range x.PossibleValues(v) {
+				o := pv.V
+				if o == nil {
+					continue
+				}
+				if ex, ok := x.Origin(o).(*ssa.Extract); ok {
+					o = ex.Tuple
+				}
+				if lk, ok := x.Origin(o).(*ssa.Lookup); ok && x.Origin(lk.X) == ssa.Value(varsPar) {
+					return true
+				}
+			}
+			return false
+		}
+		bad := ""
+		var badPos token.Pos
+		eachInstrDeep(f, func(_ *ssa.Function, in ssa.Instruction) {
+			switch t := in.(type) {
+			case *ssa.Store:
+				if fa, ok := t.Addr.(*ssa.FieldAddr); ok && structName(fa.X.Type()) == "DataContext" && fromVars(t.Val) {
+					bad, badPos = "field "+fieldOf(fa).Name(), in.Pos()
+				}
+			case *ssa.MapUpdate:
+				if _, is := x.isFieldLoad(t.Map, "DataContext", "base"); is && fromVars(t.Value) {
+					bad, badPos = "the injected table", in.Pos()
+				}
+			}
+		})
+		c.Check("V6-locals-not-kept-in-context", fnName(f), bad == "", orPos(badPos, f.Pos()), "a value read from the rule's locals table is stored into %s of the shared data context: it would be visible to other rules, later calls and concurrent executions", orStr(bad, "nothing"))
+	}
+	c.Min("V6-locals-not-kept-in-context", 4)
+	_ = nV6
 	// V5
 	c.ruleOwnDc("V5-shared-injected-names", c.engineExecFns())
 	c.Min("V5-shared-injected-names", 25)
